@@ -2566,6 +2566,13 @@ int errBoundMode, double absErr_Bound, double relBoundRatio, double pwRelBoundRa
 	else
 		min = computeRangeSize_double(oriData, dataLength, &valueRangeSize, &medianValue);
 	double max = min+valueRangeSize;
+	if(confparams_cpr->protectValueRange) //min+range can round below (or above) the true maximum, which is what the decompressor must clamp to
+	{
+		size_t ii;
+		max = oriData[0];
+		for(ii=0;ii<dataLength;ii++)
+			if(oriData[ii]>max) max = oriData[ii];
+	}
 	confparams_cpr->dmin = min;
 	confparams_cpr->dmax = max;
 
